@@ -14,6 +14,7 @@ import (
 
 	"github.com/dolthub/go-mysql-server/sql"
 
+	"github.com/dolthub/dolt/go/store/hash"
 	"github.com/dolthub/dolt/go/store/prolly"
 	"github.com/dolthub/dolt/go/store/prolly/tree"
 	"github.com/dolthub/dolt/go/store/val"
@@ -45,7 +46,17 @@ type Call struct {
 	Right *int64 `json:"r"`
 }
 
+// one patch of the stream tree.SendPatches really sent
+type PatchObs struct {
+	Level int        `json:"lvl"`
+	Key   int64      `json:"k"`            // Level 0: EndKey; Level > 0: EndKey (inclusive upper bound)
+	To    *int64     `json:"to"`           // Level 0: new value (nil = delete)
+	Lo    *int64     `json:"lo"`           // Level > 0: KeyBelowStart (nil = from the very first key)
+	Cont  [][2]int64 `json:"c,omitempty"`  // Level > 0: the entries of the subtree the patch points to
+}
+
 type Obs struct {
+	Stream []PatchObs `json:"stream"`
 	DOps   []Op       `json:"dops"`
 	DCalls []Call     `json:"dcalls"`
 	PRes   [][2]int64 `json:"pres"`
@@ -188,6 +199,76 @@ func Run(raw json.RawMessage) (any, error) {
 	o.PCanon = mk(ns, o.PRes, c.Pad).HashOf() == merged.HashOf()
 	o.Height = merged.Height()
 	_ = merged.WalkNodes(ctx, func(ctx context.Context, nd *tree.Node) error { o.Chunks++; return nil })
+
+	// the patch stream itself: the same generators and SendPatches, patches collected instead of applied
+	{
+		lg, err := tree.PatchGeneratorFromRoots[val.Tuple](ctx, ns, ns, base.Node(), left.Node(), kd)
+		if err != nil {
+			return nil, err
+		}
+		rg, err := tree.PatchGeneratorFromRoots[val.Tuple](ctx, ns, ns, base.Node(), right.Node(), kd)
+		if err != nil {
+			return nil, err
+		}
+		buf := tree.NewPatchBuffer(1 << 15)
+		err = tree.SendPatches(ctx, lg, rg, buf, func(l, r tree.Diff) (tree.Diff, bool) {
+			res, ok := collide(c.Mode, decode(l.To), decode(r.To))
+			d := l
+			if res != nil {
+				d.To = tree.Item(value(ns, *res, c.Pad))
+			} else {
+				d.To = nil
+			}
+			return d, ok
+		})
+		if err != nil {
+			return nil, err
+		}
+		_ = buf.Close()
+		o.Stream = []PatchObs{}
+		for {
+			p, err := buf.NextPatch(ctx)
+			if err != nil {
+				return nil, err
+			}
+			if p.EndKey == nil {
+				break
+			}
+			k, _ := kd.GetInt64(0, val.Tuple(p.EndKey))
+			po := PatchObs{Level: p.Level, Key: k}
+			if p.Level == 0 {
+				po.To = decode(p.To)
+			} else {
+				if p.KeyBelowStart != nil {
+					lo, _ := kd.GetInt64(0, val.Tuple(p.KeyBelowStart))
+					po.Lo = &lo
+				}
+				po.Cont = [][2]int64{}
+				if p.To != nil {
+					nd, err := ns.Read(ctx, hash.New(p.To))
+					if err != nil {
+						return nil, err
+					}
+					sub := prolly.NewMap(nd, ns, kd, vd)
+					it, err := sub.IterAll(ctx)
+					if err != nil {
+						return nil, err
+					}
+					for {
+						kk, vv, err := it.Next(ctx)
+						if errors.Is(err, io.EOF) {
+							break
+						} else if err != nil {
+							return nil, err
+						}
+						k2, _ := kd.GetInt64(0, kk)
+						po.Cont = append(po.Cont, [2]int64{k2, *decode(vv)})
+					}
+				}
+			}
+			o.Stream = append(o.Stream, po)
+		}
+	}
 
 	// route 2: key-level three-way differ
 	sctx := sql.NewEmptyContext()
